@@ -22,11 +22,13 @@ import (
 	"strconv"
 	"strings"
 	"sync"
+	"sync/atomic"
 	"time"
 
 	gproto "google.golang.org/protobuf/proto"
 	"reduction.dev/reduction-protocol/handlerpb"
 	"reduction.dev/reduction-protocol/jobconfigpb"
+	"reduction.dev/reduction/batching"
 	"reduction.dev/reduction/clocks"
 	"reduction.dev/reduction/config"
 	"reduction.dev/reduction/connectors"
@@ -37,6 +39,7 @@ import (
 	"reduction.dev/reduction/proto/workerpb"
 	"reduction.dev/reduction/storage/locations"
 	"reduction.dev/reduction/storage/objstore"
+	"reduction.dev/reduction/workers"
 	"reduction.dev/reduction/workers/operator"
 	"verif/harness/lib"
 )
@@ -180,14 +183,22 @@ func (s *c15SrHandle) Deploy(ctx context.Context, req *workerpb.DeploySourceRunn
 }
 func (s *c15SrHandle) AssignSplits(ctx context.Context, sp []*workerpb.SourceSplit) error {
 	s.w.mu.Lock()
-	defer s.w.mu.Unlock()
 	s.w.assigned = append(s.w.assigned, s.id)
+	cl := s.w.cluster
+	s.w.mu.Unlock()
+	if cl != nil {
+		return cl.assignSplits(s.id)
+	}
 	return nil
 }
 func (s *c15SrHandle) StartCheckpoint(ctx context.Context, id uint64) error {
 	s.w.mu.Lock()
-	defer s.w.mu.Unlock()
 	s.w.ckStarts = append(s.w.ckStarts, [2]uint64{uint64(s.id), id})
+	cl := s.w.cluster
+	s.w.mu.Unlock()
+	if cl != nil {
+		return cl.startCheckpoint(s.id, id)
+	}
 	return nil
 }
 
@@ -224,13 +235,61 @@ func (j c15JobForOp) OperatorCheckpointComplete(ctx context.Context, req *snapsh
 	return fmt.Errorf("%s", res)
 }
 
-type c15Handler struct{}
+// the user handler of one operator process: records the keyed events it is handed (their tags)
+type c15Handler struct {
+	w  *c15World
+	id int
+}
 
-func (c15Handler) ProcessEventBatch(ctx context.Context, req *handlerpb.ProcessEventBatchRequest) (*handlerpb.ProcessEventBatchResponse, error) {
+func (h c15Handler) ProcessEventBatch(ctx context.Context, req *handlerpb.ProcessEventBatchRequest) (*handlerpb.ProcessEventBatchResponse, error) {
+	var tags []int
+	for _, e := range req.Events {
+		if ke := e.GetKeyedEvent(); ke != nil {
+			n, _ := strconv.Atoi(string(ke.Value))
+			tags = append(tags, n)
+		}
+	}
+	h.w.mu.Lock()
+	h.w.handled[h.id] = append(h.w.handled[h.id], tags...)
+	for _, t := range tags {
+		for j, q := range h.w.queued[h.id] {
+			if q == t {
+				h.w.queued[h.id] = append(h.w.queued[h.id][:j:j], h.w.queued[h.id][j+1:]...)
+				break
+			}
+		}
+	}
+	h.w.mu.Unlock()
+	select {
+	case h.w.handledCh <- struct{}{}:
+	default:
+	}
 	return &handlerpb.ProcessEventBatchResponse{}, nil
 }
 func (c15Handler) KeyEventBatch(ctx context.Context, events [][]byte) ([][]*handlerpb.KeyedEvent, error) {
 	return nil, nil
+}
+
+// the batcher's timer of one operator process, fired by the `flush` op
+type c15Timer struct {
+	mu sync.Mutex
+	do func()
+}
+
+func (t *c15Timer) Set(d time.Duration, do func()) {
+	t.mu.Lock()
+	t.do = do
+	t.mu.Unlock()
+}
+func (t *c15Timer) Stop() {
+	t.mu.Lock()
+	t.do = nil
+	t.mu.Unlock()
+}
+func (t *c15Timer) take() func() {
+	t.mu.Lock()
+	defer t.mu.Unlock()
+	return t.do
 }
 
 type c15Sink struct{}
@@ -253,6 +312,13 @@ type c15World struct {
 	ckStarts  [][2]uint64
 	lastOpAck string
 	opAcked   bool
+	bmax      int
+	timers    map[int]*c15Timer
+	handled   map[int][]int // tags handed to each operator's handler since the harness last looked
+	queued    map[int][]int // tags accepted by HandleEvent and not yet seen by the handler
+	handledCh chan struct{}
+	// real-worker cluster (c15_cluster.go): the deployments and checkpoint starts go to real worker processes
+	cluster *c15Cluster
 }
 
 // c15Loc serialises access to the in-memory storage location (the store writes and removes snapshot files from
@@ -311,7 +377,7 @@ type c15Discard struct{}
 
 func (c15Discard) Write(p []byte) (int, error) { return len(p), nil }
 
-func newC15World(w, d, c0 int) (*c15World, error) {
+func newC15World(w, d, c0, bmax int) (*c15World, error) {
 	mem, err := locations.NewS3Location(objstore.NewMemoryS3Service(), "s3://bucket/job")
 	if err != nil {
 		return nil, err
@@ -331,7 +397,8 @@ func newC15World(w, d, c0 int) (*c15World, error) {
 			return nil, err
 		}
 	}
-	world := &c15World{w: w, d: d, ops: map[int]*operator.Operator{}, deployed: map[int]bool{},
+	world := &c15World{w: w, d: d, bmax: bmax, timers: map[int]*c15Timer{}, handled: map[int][]int{}, queued: map[int][]int{},
+		handledCh: make(chan struct{}, 1), ops: map[int]*operator.Operator{}, deployed: map[int]bool{},
 		deployCh: make(chan *c15DeployCall, 64), startCh: make(chan string, 4),
 		clk: &c15Clock{now: time.Unix(1000, 0), everyCh: make(chan struct{}, 4)}}
 	quiet := slog.New(slog.NewTextHandler(c15Discard{}, nil))
@@ -361,8 +428,11 @@ func (w *c15World) op(i int) *operator.Operator {
 	if o, ok := w.ops[i]; ok {
 		return o
 	}
-	o := operator.NewOperator(operator.NewOperatorParams{ID: c15ID(i), Host: "h", Job: c15JobForOp{w: w}, UserHandler: c15Handler{},
-		Clock: clocks.NewFrozenClock(),
+	tm := &c15Timer{}
+	w.timers[i] = tm
+	o := operator.NewOperator(operator.NewOperatorParams{ID: c15ID(i), Host: "h", Job: c15JobForOp{w: w}, UserHandler: c15Handler{w: w, id: i},
+		Clock:         clocks.NewFrozenClock(),
+		EventBatching: batching.EventBatcherParams{MaxDelay: time.Hour, MaxSize: w.bmax, Timer: tm},
 		NeighborOperatorFactory: func(senderID string, node *jobpb.NodeIdentity) proto.Operator {
 			return &c15OpHandle{w: w, id: c15Num(node.Id)}
 		}})
@@ -509,6 +579,10 @@ func (w *c15World) release(victim int) {
 			c.resp <- fmt.Errorf("node unreachable")
 			continue
 		}
+		if w.cluster != nil {
+			c.resp <- w.cluster.deploy(c)
+			continue
+		}
 		if c.kind == 'o' {
 			req := gproto.Clone(c.opReq).(*workerpb.DeployOperatorRequest)
 			req.Checkpoints = nil // the operator's DKV restore is not part of this property (C06/C08)
@@ -537,6 +611,13 @@ func (w *c15World) staleReport() string {
 			}
 		}
 	}
+	w.mu.Lock()
+	for _, id := range ao {
+		if len(w.queued[c15Num(id)]) > 0 {
+			parts = append(parts, "batch:"+strconv.Itoa(c15Num(id)))
+		}
+	}
+	w.mu.Unlock()
 	if len(parts) == 0 {
 		return "none"
 	}
@@ -582,7 +663,11 @@ func (w *c15World) deployFail(k int) string {
 		return "nostart"
 	}
 	w.release(k % len(w.batch))
-	// the failure task is enqueued by the start goroutine: wait until it has run
+	return w.afterFailedDeploy()
+}
+
+// the failure task is enqueued by the start goroutine: wait until it has run
+func (w *c15World) afterFailedDeploy() string {
 	deadline := time.Now().Add(c15Wait)
 	for time.Now().Before(deadline) {
 		if !w.sync() {
@@ -682,49 +767,138 @@ func (w *c15World) tick() string {
 	return strings.Join(outs, " | ")
 }
 
-func (w *c15World) barrier(i, s int, id uint64) string {
-	o := w.op(i)
-	if !w.deployed[i] {
-		// HandleEvent answers "not ready" before looking at anything else
-	} else if rid, waiting, ok := o.VerifCheckpointRecordC15(); ok {
-		in := false
+// parkedSender: would alignSender park this sender (its barrier is in, or the record does not expect it)?
+func (w *c15World) parkedSender(o *operator.Operator, s int) bool {
+	if _, waiting, ok := o.VerifCheckpointRecordC15(); ok && len(waiting) > 0 {
 		for _, x := range waiting {
 			if x == c15ID(s) {
-				in = true
+				return false
 			}
 		}
-		if !in && len(waiting) > 0 {
-			return "blocked" // the sender would park in alignSender until the record completes
-		}
-		if len(waiting) == 0 && rid == id {
-			return "wouldpanic" // registerBarrier would close the already closed alignment channel
-		}
+		return true
 	}
-	w.opAcked = false
-	type r struct{ err error }
-	ch := make(chan r, 1)
+	return false
+}
+
+func (w *c15World) takeHandled(i int) string {
+	w.mu.Lock()
+	defer w.mu.Unlock()
+	h := w.handled[i]
+	w.handled[i] = nil
+	if len(h) == 0 {
+		return ""
+	}
+	parts := make([]string, len(h))
+	for j, t := range h {
+		parts[j] = strconv.Itoa(t)
+	}
+	return strings.Join(parts, ",")
+}
+
+// handleEvent delivers one event through the operator's public entry point and waits (bounded) for the answer
+func (w *c15World) handleEvent(o *operator.Operator, s int, ev *workerpb.Event) (error, bool) {
+	ch := make(chan error, 1)
 	go func() {
 		defer func() {
 			if p := recover(); p != nil {
-				ch <- r{fmt.Errorf("panic %v", p)}
+				ch <- fmt.Errorf("panic %v", p)
 			}
 		}()
-		ch <- r{o.HandleEvent(context.Background(), c15ID(s), &workerpb.Event{Event: &workerpb.Event_CheckpointBarrier{CheckpointBarrier: &workerpb.CheckpointBarrier{CheckpointId: id}}})}
+		ch <- o.HandleEvent(context.Background(), c15ID(s), ev)
 	}()
 	select {
-	case res := <-ch:
-		if w.opAcked {
-			if res.err == nil {
-				if rest := strings.TrimSpace(strings.TrimPrefix(w.lastOpAck, "ok")); rest != "" {
-					return "ok acked " + rest
-				}
-				return "ok acked"
-			}
-			return "ackerr " + w.lastOpAck
-		}
-		return c15ErrClass(res.err)
+	case err := <-ch:
+		return err, true
 	case <-time.After(c15Wait):
+		return nil, false
+	}
+}
+
+func (w *c15World) barrier(i, s int, id uint64) string {
+	o := w.op(i)
+	if w.deployed[i] && w.parkedSender(o, s) {
+		return "blocked" // the sender would park in alignSender until the record completes or is abandoned
+	}
+	w.opAcked = false
+	w.takeHandled(i)
+	err, ok := w.handleEvent(o, s, &workerpb.Event{Event: &workerpb.Event_CheckpointBarrier{CheckpointBarrier: &workerpb.CheckpointBarrier{CheckpointId: id}}})
+	if !ok {
 		return "timeout-barrier"
+	}
+	flushed := ""
+	if h := w.takeHandled(i); h != "" {
+		flushed = " flushed=" + h
+	}
+	if w.opAcked {
+		if err == nil {
+			if rest := strings.TrimSpace(strings.TrimPrefix(w.lastOpAck, "ok")); rest != "" {
+				return "ok acked " + rest + flushed
+			}
+			return "ok acked" + flushed
+		}
+		return "ackerr " + w.lastOpAck + flushed
+	}
+	return c15ErrClass(err) + flushed
+}
+
+func (w *c15World) event(i, s, tag int) string {
+	o := w.op(i)
+	if w.deployed[i] && w.parkedSender(o, s) {
+		return "blocked"
+	}
+	w.takeHandled(i)
+	err, ok := w.handleEvent(o, s, &workerpb.Event{Event: &workerpb.Event_KeyedEvent{KeyedEvent: &handlerpb.KeyedEvent{
+		Key: []byte("k"), Value: []byte(strconv.Itoa(tag))}}})
+	if !ok {
+		return "timeout-event"
+	}
+	if err != nil {
+		return c15ErrClass(err)
+	}
+	if h := w.takeHandled(i); h != "" {
+		return "processed " + h
+	}
+	w.mu.Lock()
+	w.queued[i] = append(w.queued[i], tag)
+	w.mu.Unlock()
+	return "queued"
+}
+
+// flush fires the operator's batch timer (if a batch is waiting) and waits for the handler to be called
+func (w *c15World) flush(i int) string {
+	tm := w.timers[i]
+	if tm == nil {
+		return "empty"
+	}
+	do := tm.take()
+	if do == nil {
+		return "empty"
+	}
+	w.takeHandled(i)
+	for len(w.handledCh) > 0 {
+		<-w.handledCh
+	}
+	fired := make(chan struct{})
+	go func() {
+		defer func() { recover() }()
+		do()
+		close(fired)
+	}()
+	select {
+	case <-fired:
+	case <-time.After(c15Wait):
+		return "timeout-flush"
+	}
+	deadline := time.After(c15Wait)
+	for {
+		if h := w.takeHandled(i); h != "" {
+			return "processed " + h
+		}
+		select {
+		case <-w.handledCh:
+		case <-deadline:
+			return "timeout-flush"
+		}
 	}
 }
 
@@ -759,8 +933,24 @@ func (w *c15World) state() string {
 	if len(w.clk.alive()) > 0 {
 		tick = len(w.clk.alive())
 	}
-	return fmt.Sprintf("%s reg=o%s:s%s asm=o%s:s%s pend=%s cur=%s tick=%d rec=%s", w.job.VerifStatusC15(),
-		c15Join(c15Nums(ro)), c15Join(c15Nums(rs)), c15Join(c15Nums(ao)), c15Join(c15Nums(as)), pend, cur, tick, rec)
+	var bats []string
+	w.mu.Lock()
+	for i := 0; i < 10; i++ {
+		if q := w.queued[i]; len(q) > 0 {
+			parts := make([]string, len(q))
+			for j, t := range q {
+				parts[j] = strconv.Itoa(t)
+			}
+			bats = append(bats, fmt.Sprintf("%d:%s", i, strings.Join(parts, ",")))
+		}
+	}
+	w.mu.Unlock()
+	bat := "-"
+	if len(bats) > 0 {
+		bat = strings.Join(bats, ";")
+	}
+	return fmt.Sprintf("%s reg=o%s:s%s asm=o%s:s%s pend=%s cur=%s tick=%d rec=%s bat=%s", w.job.VerifStatusC15(),
+		c15Join(c15Nums(ro)), c15Join(c15Nums(rs)), c15Join(c15Nums(ao)), c15Join(c15Nums(as)), pend, cur, tick, rec, bat)
 }
 
 var (
@@ -791,23 +981,36 @@ func c15Count(op []string, o string) {
 	c15StatsMu.Unlock()
 }
 
-func c15Header(w, d, c0 int) string { return fmt.Sprintf("M C15 %d %d %d", w, d, c0) }
+const c15BatchMax = 3
+
+func c15Header(w, d, c0 int) string { return fmt.Sprintf("M C15 %d %d %d %d", w, d, c0, c15BatchMax) }
 
 func c15Impl(c lib.Case) []string {
 	f := strings.Fields(c.Header)
 	atoi := func(s string) int { n, _ := strconv.Atoi(s); return n }
-	if len(f) != 5 {
+	if len(f) != 6 && len(f) != 7 {
 		return []string{"bad-header"}
 	}
-	w, err := newC15World(atoi(f[2]), atoi(f[3]), atoi(f[4]))
+	w, err := newC15World(atoi(f[2]), atoi(f[3]), atoi(f[4]), atoi(f[5]))
 	if err != nil {
 		return []string{"setup-error " + err.Error()}
 	}
 	out := make([]string, 0, len(c.Ops))
 	ctx := context.Background()
+	if len(f) == 7 && f[6] == "R" {
+		w.cluster = newC15Cluster(w)
+		defer w.cluster.close()
+	}
 	for _, line := range c.Ops {
 		a := strings.Fields(line)
 		var o string
+		if w.cluster != nil {
+			if r, ok := w.cluster.clusterOp(a); ok {
+				out = append(out, r)
+				c15Count(a, r)
+				continue
+			}
+		}
 		switch {
 		case len(a) == 3 && a[0] == "reg" && a[1] == "o":
 			w.op(atoi(a[2]))
@@ -846,6 +1049,10 @@ func c15Impl(c lib.Case) []string {
 			})
 		case len(a) == 4 && a[0] == "bar":
 			o = w.barrier(atoi(a[1]), atoi(a[2]), uint64(atoi(a[3])))
+		case len(a) == 4 && a[0] == "ev":
+			o = w.event(atoi(a[1]), atoi(a[2]), atoi(a[3]))
+		case len(a) == 2 && a[0] == "flush":
+			o = w.flush(atoi(a[1]))
 		case len(a) == 3 && a[0] == "hbx":
 			// instance of Props/C15 heartbeat_expiry_exact on the real LivenessTracker: purged ⇔ age > deadline
 			d, age := atoi(a[1]), atoi(a[2])
@@ -899,6 +1106,22 @@ type c15Gen struct {
 	pending bool
 	acked   map[string]bool
 	deploys int
+	tag     int
+}
+
+// keyed events from the runners of the assembly to its operators (unique tags), sometimes a batch timer
+func (g *c15Gen) traffic() {
+	if len(g.asmO) == 0 || len(g.asmS) == 0 {
+		return
+	}
+	for n := g.r.Range(1, 4); n > 0; n-- {
+		if g.r.Chance(1, 5) {
+			g.add("flush %d", lib.Pick(g.r, g.asmO))
+			continue
+		}
+		g.tag++
+		g.add("ev %d %d %d", lib.Pick(g.r, g.asmO), lib.Pick(g.r, g.asmS), g.tag)
+	}
 }
 
 func (g *c15Gen) add(s string, a ...any) { g.ops = append(g.ops, fmt.Sprintf(s, a...)) }
@@ -1122,9 +1345,20 @@ func (g *c15Gen) noise() {
 	case 6:
 		g.add("st")
 	}
+	if g.r.Chance(1, 6) { // events from anybody to anybody, a timer anywhere
+		if g.r.Chance(1, 4) {
+			g.add("flush %d", g.node())
+		} else {
+			g.tag++
+			g.add("ev %d %d %d", g.node(), g.node(), g.tag)
+		}
+	}
 }
 
 func c15Gen1(r *lib.Rng, tier string, idx int) lib.Case {
+	if idx%5 == 4 { // every fifth case runs real worker processes
+		return c15GenCluster(r, tier)
+	}
 	w := lib.Pick(r, []int{1, 2, 2, 2, 3})
 	d := lib.Pick(r, []int{5, 5, 3, 10})
 	c0 := lib.Pick(r, []int{0, 0, 0, 4})
@@ -1167,7 +1401,9 @@ func c15Gen1(r *lib.Rng, tier string, idx int) lib.Case {
 				g.noise()
 			}
 		case "Running":
-			switch r.Intn(8) {
+			switch r.Intn(10) {
+			case 8, 9:
+				g.traffic()
 			case 0, 1:
 				g.tick()
 			case 2, 3, 4:
@@ -1178,6 +1414,9 @@ func c15Gen1(r *lib.Rng, tier string, idx int) lib.Case {
 			case 5, 6:
 				if g.pending && r.Chance(1, 2) {
 					g.sendRound(false) // the failure strikes while a checkpoint is in flight
+				}
+				if r.Chance(1, 3) {
+					g.traffic() // ... and while events are queued at the operators
 				}
 				g.fault()
 			case 7:
@@ -1206,6 +1445,19 @@ func c15Fixed() []lib.Case {
 		{Header: c15Header(1, 5, 0), Tags: []string{"D15"}, Ops: []string{
 			"reg o 0", "reg s 1", "deployok", "tick", "ack s 1 1", "bar 0 1 1", "dereg s 1", "reg s 2", "deployok",
 			"tick", "ack s 2 2", "bar 0 2 2", "st"}},
+		// D45 (open finding): an event queued at surviving operator 0 in the first deployment is handed to the handler in
+		// the second one, on the restored state
+		{Header: c15Header(2, 5, 0), Tags: []string{"D45"}, Ops: []string{
+			"reg o 0", "reg o 1", "reg s 2", "reg s 3", "deployok", "ev 0 2 7", "flush 1", "st", "dereg s 3", "reg s 4", "deployok",
+			"ev 0 2 8", "ev 0 4 9", "ev 1 4 10", "flush 1", "flush 0", "st"}},
+		// the "spontaneous" start failures seen by the C01 cluster: worker (0,2) halts silently; the surviving worker
+		// (1,3) stops itself because its peer is unreachable and deregisters; a new worker (4,5) registers while the
+		// heartbeats of 0 and 2 have not expired: the job assembles {0,4}/{2,5}, the deployment fails, and is retried at
+		// once, again and again, until time passes and the dead nodes are purged
+		{Header: c15Header(2, 5, 0), Tags: []string{"retry-burst"}, Ops: []string{
+			"reg o 0", "reg o 1", "reg s 2", "reg s 3", "deployok", "dereg s 3", "dereg o 1", "reg o 4", "reg s 5",
+			"deployfail 0", "deployfail 2", "deployfail 0", "st", "adv 6", "reg o 4", "deployfail 0", "st",
+			"reg s 5", "reg o 6", "reg s 7", "deployok", "st"}},
 		// failed deployment, standby present, heartbeat expiry
 		{Header: c15Header(2, 5, 4), Ops: []string{
 			"reg o 0", "reg o 1", "reg o 2", "reg s 3", "reg s 4", "deployfail 1", "deployok", "tick", "adv 6",
@@ -1227,7 +1479,7 @@ func propC15() *lib.Prop {
 		},
 		Gen:   c15Gen1,
 		Impl:  c15Impl,
-		Fixed: func(tier string) []lib.Case { return c15Fixed() },
+		Fixed: func(tier string) []lib.Case { return append(c15Fixed(), c15ClusterFixed()...) },
 		MObs:  func(op string) bool { return op == "st" },
 		Extra: func() map[string]any {
 			c15StatsMu.Lock()
@@ -1254,5 +1506,689 @@ func propC15() *lib.Prop {
 			}
 			return false
 		},
+	}
+}
+
+// ================================================================ real worker processes
+
+// C15 against REAL worker processes: the real jobs.Job (real snapshots.Store) drives real workers.Worker processes
+// (real SourceRunner + real Operator, wired in-process). The harness only fixes the ORDER of things the processes do
+// on their own, so that the run is one linearisation the model can replay:
+//   * a worker's two registrations (and deregistrations) are collected and forwarded to the job operator first,
+//     source runner second;
+//   * Deploy calls are gated as in c15.go and answered by the real HandleDeploy of the target (a halted target is
+//     unreachable, so whether a deployment succeeds is decided by the processes, not by the schedule);
+//   * a source runner's checkpoint acknowledgement parks until `rack`; its barrier broadcast and the operators'
+//     alignment and acknowledgements then run by themselves and the op waits (bounded) for them;
+//   * deliveries to a halted operator vanish (no answer, no error), so survivors never stall on a dead peer.
+// Worker k has operator id k and source runner id 5+k (k = 0..4).
+
+type c15rReader struct {
+	connectors.UnimplementedSourceReader
+}
+
+func (c15rReader) ReadEvents() ([][]byte, error)                 { time.Sleep(time.Millisecond); return nil, nil }
+func (c15rReader) AssignSplits(sp []*workerpb.SourceSplit) error { return nil }
+func (c15rReader) Checkpoint() [][]byte                          { return [][]byte{[]byte("c")} }
+
+type c15rTicker struct {
+	fn      func(*clocks.EveryContext)
+	stopped bool
+}
+
+// a worker's clock: its register tickers are fired by `whb`
+type c15rClock struct {
+	mu      sync.Mutex
+	tickers []*c15rTicker
+}
+
+func (c *c15rClock) Now() time.Time { return time.Unix(1000, 0) }
+func (c *c15rClock) Every(d time.Duration, fn func(*clocks.EveryContext), label string) *clocks.Ticker {
+	t := &c15rTicker{fn: fn}
+	c.mu.Lock()
+	c.tickers = append(c.tickers, t)
+	c.mu.Unlock()
+	return clocks.VerifNewTicker(func() {
+		c.mu.Lock()
+		t.stopped = true
+		c.mu.Unlock()
+	}, func() { fn(&clocks.EveryContext{}) })
+}
+
+type c15rWorker struct {
+	num    int
+	w      *workers.Worker
+	clk    *c15rClock
+	killed atomic.Bool
+	cancel context.CancelFunc
+}
+
+type c15rAck struct {
+	req     *jobpb.SourceRunnerCheckpointCompleteRequest
+	release chan bool
+	result  chan string
+}
+
+type c15Cluster struct {
+	w       *c15World
+	mu      sync.Mutex
+	workers map[int]*c15rWorker
+	regs    chan [2]int // kind ('o'/'s'), worker
+	deregs  chan [2]int
+	parked  map[int]*c15rAck // by worker
+	ackCh   chan int
+	// barrier deliveries: results per (sender worker, operator worker) of the current broadcast
+	barRes map[[2]int]string
+	barCh  chan struct{}
+	opAck  map[int]string // last acknowledgement result of each operator
+	srOps  map[int][]int  // operators (worker numbers) each runner was deployed with
+}
+
+func newC15Cluster(w *c15World) *c15Cluster {
+	return &c15Cluster{w: w, workers: map[int]*c15rWorker{}, regs: make(chan [2]int, 64), deregs: make(chan [2]int, 64),
+		parked: map[int]*c15rAck{}, ackCh: make(chan int, 64), barRes: map[[2]int]string{}, barCh: make(chan struct{}, 64),
+		opAck: map[int]string{}, srOps: map[int][]int{}}
+}
+
+func c15rWorkerOf(id int) int {
+	if id >= 5 {
+		return id - 5
+	}
+	return id
+}
+
+// ---- what a worker sees of the job
+
+type c15rJob struct {
+	proto.NoopJob
+	cl *c15Cluster
+	wk *c15rWorker
+}
+
+func (j c15rJob) RegisterOperator(context.Context, *jobpb.NodeIdentity) error {
+	j.cl.regs <- [2]int{'o', j.wk.num}
+	return nil
+}
+func (j c15rJob) RegisterSourceRunner(context.Context, *jobpb.NodeIdentity) error {
+	j.cl.regs <- [2]int{'s', j.wk.num}
+	return nil
+}
+func (j c15rJob) DeregisterOperator(context.Context, *jobpb.NodeIdentity) error {
+	j.cl.deregs <- [2]int{'o', j.wk.num}
+	return nil
+}
+func (j c15rJob) DeregisterSourceRunner(context.Context, *jobpb.NodeIdentity) error {
+	j.cl.deregs <- [2]int{'s', j.wk.num}
+	return nil
+}
+func (j c15rJob) NotifySplitsFinished(context.Context, string, []string) error { return nil }
+func (j c15rJob) OperatorCheckpointComplete(ctx context.Context, req *snapshotpb.OperatorCheckpoint) error {
+	if j.wk.killed.Load() {
+		return fmt.Errorf("halted")
+	}
+	res := j.cl.w.storeCall(func() error { return j.cl.w.job.HandleOperatorCheckpointComplete(ctx, req) })
+	j.cl.mu.Lock()
+	j.cl.opAck[j.wk.num] = res
+	j.cl.mu.Unlock()
+	if res == "ok" || strings.HasPrefix(res, "ok ") {
+		return nil
+	}
+	return fmt.Errorf("%s", res)
+}
+func (j c15rJob) OnSourceRunnerCheckpointComplete(ctx context.Context, req *jobpb.SourceRunnerCheckpointCompleteRequest) error {
+	if j.wk.killed.Load() {
+		return fmt.Errorf("halted")
+	}
+	a := &c15rAck{req: req, release: make(chan bool, 1), result: make(chan string, 1)}
+	j.cl.mu.Lock()
+	if old := j.cl.parked[j.wk.num]; old != nil {
+		old.release <- false
+	}
+	j.cl.parked[j.wk.num] = a
+	j.cl.mu.Unlock()
+	j.cl.ackCh <- j.wk.num
+	select {
+	case ok := <-a.release:
+		if !ok {
+			return fmt.Errorf("connection lost")
+		}
+	case <-time.After(8 * c15Wait):
+		return fmt.Errorf("harness: acknowledgement never released")
+	}
+	res := j.cl.w.storeCall(func() error { return j.cl.w.job.HandleSourceRunnerCheckpointComplete(ctx, req) })
+	a.result <- res
+	if res == "ok" || strings.HasPrefix(res, "ok ") {
+		return nil
+	}
+	return fmt.Errorf("%s", res)
+}
+
+// ---- a node's handle on an operator process (source runner -> operator traffic, neighbours)
+
+type c15rOp struct {
+	proto.UnimplementedOperator
+	cl     *c15Cluster
+	target *c15rWorker
+	sender string
+}
+
+func (o *c15rOp) ID() string   { return c15ID(o.target.num) }
+func (o *c15rOp) Host() string { return "h" }
+func (o *c15rOp) HandleEventBatch(ctx context.Context, batch []*workerpb.Event) error {
+	for _, e := range batch {
+		if o.target.killed.Load() {
+			return nil // the delivery vanishes
+		}
+		bar := e.GetCheckpointBarrier()
+		if bar != nil {
+			o.cl.mu.Lock()
+			delete(o.cl.opAck, o.target.num)
+			o.cl.mu.Unlock()
+		}
+		err := o.target.w.Operator.HandleEvent(ctx, o.sender, e)
+		if bar != nil {
+			res := c15ErrClass(err)
+			o.cl.mu.Lock()
+			if a, ok := o.cl.opAck[o.target.num]; ok {
+				if err == nil {
+					res = "acked"
+					if i := strings.Index(a, "pub="); i >= 0 {
+						res += " " + a[i:]
+					}
+				} else {
+					res = "ackerr:" + strings.Fields(a)[0]
+				}
+			}
+			o.cl.barRes[[2]int{c15rWorkerOf(c15Num(o.sender)), o.target.num}] = res
+			o.cl.mu.Unlock()
+			o.cl.barCh <- struct{}{}
+		}
+		if err != nil && bar == nil {
+			return nil // watermarks of a stale loop refused by a redeployed operator are not this property's business
+		}
+	}
+	return nil
+}
+func (o *c15rOp) NeedsTable(ctx context.Context, uri string) (bool, error) { return false, nil }
+func (o *c15rOp) UpdateRetainedCheckpoints(ctx context.Context, ids []uint64) error {
+	return nil
+}
+
+func (cl *c15Cluster) opFactory(senderID string, node *jobpb.NodeIdentity) proto.Operator {
+	cl.mu.Lock()
+	t := cl.workers[c15Num(node.Id)]
+	cl.mu.Unlock()
+	return &c15rOp{cl: cl, target: t, sender: senderID}
+}
+
+// ---- worker life cycle
+
+func (cl *c15Cluster) start(k int) {
+	wk := &c15rWorker{num: k, clk: &c15rClock{}}
+	cl.mu.Lock()
+	cl.workers[k] = wk
+	cl.mu.Unlock()
+	wk.w = workers.VerifNewC01(workers.NewParams{Host: "h", Handler: c15Handler{w: cl.w, id: k}, Job: c15rJob{cl: cl, wk: wk},
+		Clock: wk.clk, OperatorFactory: cl.opFactory, EventBatching: batching.EventBatcherParams{MaxSize: 1}},
+		c15ID(k), c15ID(5+k), func(*jobconfigpb.Source) connectors.SourceReader { return c15rReader{} })
+	quiet := slog.New(slog.NewTextHandler(c15Discard{}, nil))
+	wk.w.Operator.Logger, wk.w.SourceRunner.Logger = quiet, quiet
+	cl.w.ops[k] = wk.w.Operator
+	ctx, cancel := context.WithCancel(context.Background())
+	wk.cancel = cancel
+	go func() {
+		defer func() { recover() }()
+		wk.w.Start(ctx)
+	}()
+}
+
+// collect both (de)registrations of worker k (they come from two goroutines of the process)
+func (cl *c15Cluster) collect(ch chan [2]int, k int) bool {
+	seen := map[int]bool{}
+	deadline := time.After(c15Wait)
+	for len(seen) < 2 {
+		select {
+		case r := <-ch:
+			if r[1] == k {
+				seen[r[0]] = true
+			}
+		case <-deadline:
+			return false
+		}
+	}
+	return true
+}
+
+func (cl *c15Cluster) register(k int) string {
+	cl.w.job.HandleRegisterOperator(&jobpb.NodeIdentity{Id: c15ID(k), Host: "h"})
+	a := cl.w.settle()
+	cl.w.job.HandleRegisterSourceRunner(&jobpb.NodeIdentity{Id: c15ID(5 + k), Host: "h"})
+	return a + " ; " + cl.w.settle()
+}
+
+func (cl *c15Cluster) live(k int) *c15rWorker {
+	cl.mu.Lock()
+	defer cl.mu.Unlock()
+	wk := cl.workers[k]
+	if wk == nil || wk.killed.Load() {
+		return nil
+	}
+	return wk
+}
+
+func (cl *c15Cluster) opStart(k int) string {
+	cl.mu.Lock()
+	_, exists := cl.workers[k]
+	cl.mu.Unlock()
+	if exists || k < 0 || k > 4 {
+		return "exists"
+	}
+	cl.start(k)
+	if !cl.collect(cl.regs, k) {
+		return "timeout-register"
+	}
+	return cl.register(k)
+}
+
+func (cl *c15Cluster) opHeartbeat(k int) string {
+	wk := cl.live(k)
+	if wk == nil {
+		return "dead"
+	}
+	wk.clk.mu.Lock()
+	ts := append([]*c15rTicker(nil), wk.clk.tickers...)
+	wk.clk.mu.Unlock()
+	for _, t := range ts {
+		if !t.stopped {
+			t.fn(&clocks.EveryContext{})
+		}
+	}
+	if !cl.collect(cl.regs, k) {
+		return "timeout-register"
+	}
+	return cl.register(k)
+}
+
+func (cl *c15Cluster) dropAcks(k int) {
+	cl.mu.Lock()
+	for n, a := range cl.parked {
+		if k < 0 || n == k {
+			a.release <- false
+			delete(cl.parked, n)
+		}
+	}
+	cl.mu.Unlock()
+}
+
+func (cl *c15Cluster) opKill(k int) string {
+	wk := cl.live(k)
+	if wk == nil {
+		return "dead"
+	}
+	wk.killed.Store(true)
+	cl.dropAcks(k)
+	func() {
+		defer func() { recover() }()
+		wk.w.Halt()
+	}()
+	return "ok"
+}
+
+func (cl *c15Cluster) opStop(k int) string {
+	wk := cl.live(k)
+	if wk == nil {
+		return "dead"
+	}
+	wk.killed.Store(true)
+	cl.dropAcks(k)
+	func() {
+		defer func() { recover() }()
+		wk.w.Stop()
+	}()
+	if !cl.collect(cl.deregs, k) {
+		return "timeout-deregister"
+	}
+	cl.w.job.HandleDeregisterSourceRunner(&jobpb.NodeIdentity{Id: c15ID(5 + k), Host: "h"})
+	a := cl.w.settle()
+	cl.w.job.HandleDeregisterOperator(&jobpb.NodeIdentity{Id: c15ID(k), Host: "h"})
+	return a + " ; " + cl.w.settle()
+}
+
+// ---- called by the job's node handles (c15.go)
+
+func (cl *c15Cluster) deploy(c *c15DeployCall) error {
+	wk := cl.live(c15rWorkerOf(c.id))
+	if wk == nil {
+		return fmt.Errorf("node unreachable")
+	}
+	if c.kind == 'o' {
+		req := gproto.Clone(c.opReq).(*workerpb.DeployOperatorRequest)
+		req.Checkpoints = nil // the operator's DKV restore is not part of this property (C06/C08)
+		err := wk.w.Operator.HandleDeploy(context.Background(), req, c15Sink{})
+		if err == nil {
+			cl.w.deployed[c.id] = true
+		}
+		return err
+	}
+	var ops []int
+	for _, n := range c.srReq.Operators {
+		ops = append(ops, c15Num(n.Id))
+	}
+	cl.mu.Lock()
+	cl.srOps[wk.num] = ops
+	cl.mu.Unlock()
+	return wk.w.SourceRunner.HandleDeploy(context.Background(), c.srReq)
+}
+
+func (cl *c15Cluster) startCheckpoint(srID int, id uint64) error {
+	wk := cl.live(c15rWorkerOf(srID))
+	if wk == nil {
+		return nil // the request vanishes
+	}
+	done := make(chan struct{})
+	go func() {
+		defer func() { recover() }()
+		wk.w.SourceRunner.HandleStartCheckpoint(context.Background(), id)
+		close(done)
+	}()
+	select {
+	case <-done:
+	case <-time.After(c15Wait):
+	}
+	return nil
+}
+
+func (cl *c15Cluster) assignSplits(srID int) error {
+	wk := cl.live(c15rWorkerOf(srID))
+	if wk == nil {
+		return nil
+	}
+	return wk.w.SourceRunner.HandleAssignSplits(nil)
+}
+
+// ---- ops
+
+func (cl *c15Cluster) opDeploy() string {
+	w := cl.w
+	if w.batch == nil {
+		return "nostart"
+	}
+	cl.dropAcks(-1) // acknowledgements of the previous deployment still in transit are lost with it
+	anyDead := false
+	for _, c := range w.batch {
+		if cl.live(c15rWorkerOf(c.id)) == nil {
+			anyDead = true
+		}
+	}
+	if !anyDead {
+		return w.deployOK()
+	}
+	w.release(-1)
+	return w.afterFailedDeploy()
+}
+
+// rack releases the parked acknowledgement of worker k's source runner and waits for what follows by itself:
+// the runner's barrier at every live operator it was deployed with, their alignment and acknowledgements
+func (cl *c15Cluster) opRack(k int) string {
+	if cl.live(k) == nil {
+		return "none"
+	}
+	if _, _, waitingSrs, ok := cl.w.job.VerifStoreC15().VerifPendingC15(); !ok || !c15HasStr(waitingSrs, c15ID(5+k)) {
+		return "none" // the store is not waiting for this runner
+	}
+	// the runner reaches its acknowledgement by itself after StartCheckpoint; give it time to get there
+	deadline := time.After(c15Wait)
+	var a *c15rAck
+	for a == nil {
+		cl.mu.Lock()
+		a = cl.parked[k]
+		cl.mu.Unlock()
+		if a != nil {
+			break
+		}
+		select {
+		case <-cl.ackCh:
+		case <-deadline:
+			return "timeout-ack"
+		}
+	}
+	cl.mu.Lock()
+	delete(cl.parked, k)
+	ops := append([]int(nil), cl.srOps[k]...)
+	for _, i := range ops {
+		delete(cl.barRes, [2]int{k, i})
+	}
+	cl.mu.Unlock()
+	for len(cl.barCh) > 0 {
+		<-cl.barCh
+	}
+	a.release <- true
+	var res string
+	select {
+	case res = <-a.result:
+	case <-time.After(c15Wait):
+		return "timeout-ack"
+	}
+	if !(res == "ok" || strings.HasPrefix(res, "ok ")) {
+		return res
+	}
+	var liveOps []int
+	for _, i := range ops {
+		if cl.live(i) != nil {
+			liveOps = append(liveOps, i)
+		}
+	}
+	sort.Ints(liveOps)
+	deadline = time.After(c15Wait)
+	for {
+		cl.mu.Lock()
+		n := 0
+		for _, i := range liveOps {
+			if _, ok := cl.barRes[[2]int{k, i}]; ok {
+				n++
+			}
+		}
+		cl.mu.Unlock()
+		if n == len(liveOps) {
+			break
+		}
+		select {
+		case <-cl.barCh:
+		case <-deadline:
+			return res + " timeout-barriers"
+		}
+	}
+	pub := ""
+	if i := strings.Index(res, "pub="); i >= 0 {
+		pub = res[i:]
+		res = strings.TrimSpace(res[:i])
+	}
+	cl.mu.Lock()
+	for _, i := range liveOps {
+		r := cl.barRes[[2]int{k, i}]
+		if j := strings.Index(r, "pub="); j >= 0 {
+			pub = r[j:]
+			r = strings.TrimSpace(r[:j])
+		}
+		res += fmt.Sprintf(" b%d=%s", i, r)
+	}
+	cl.mu.Unlock()
+	if pub != "" {
+		res += " " + pub
+	}
+	return res
+}
+
+func c15HasStr(xs []string, x string) bool {
+	for _, y := range xs {
+		if y == x {
+			return true
+		}
+	}
+	return false
+}
+
+func (cl *c15Cluster) close() {
+	cl.dropAcks(-1)
+	cl.mu.Lock()
+	ws := make([]*c15rWorker, 0, len(cl.workers))
+	for _, wk := range cl.workers {
+		ws = append(ws, wk)
+	}
+	cl.mu.Unlock()
+	for _, wk := range ws {
+		if !wk.killed.Swap(true) {
+			func() {
+				defer func() { recover() }()
+				wk.w.Halt()
+			}()
+		}
+		wk.cancel()
+	}
+}
+
+func c15ClusterHeader(w, d, c0 int) string {
+	return fmt.Sprintf("M C15 %d %d %d %d R", w, d, c0, c15BatchMax)
+}
+
+// clusterOp runs one op of a real-worker case; ok=false: not a cluster op
+func (cl *c15Cluster) clusterOp(a []string) (string, bool) {
+	atoi := func(s string) int { n, _ := strconv.Atoi(s); return n }
+	switch {
+	case len(a) == 2 && a[0] == "wstart":
+		return cl.opStart(atoi(a[1])), true
+	case len(a) == 2 && a[0] == "whb":
+		return cl.opHeartbeat(atoi(a[1])), true
+	case len(a) == 2 && a[0] == "wkill":
+		return cl.opKill(atoi(a[1])), true
+	case len(a) == 2 && a[0] == "wstop":
+		return cl.opStop(atoi(a[1])), true
+	case len(a) == 1 && a[0] == "wdeploy":
+		return cl.opDeploy(), true
+	case len(a) == 2 && a[0] == "rack":
+		return cl.opRack(atoi(a[1])), true
+	}
+	return "", false
+}
+
+// ---------------------------------------------------------------- generator (real workers)
+
+type c15rGen struct {
+	r       *lib.Rng
+	w, d    int
+	ops     []string
+	next    int
+	live    []int
+	pending bool
+}
+
+func (g *c15rGen) add(s string, a ...any) { g.ops = append(g.ops, fmt.Sprintf(s, a...)) }
+
+func (g *c15rGen) startWorker() bool {
+	if g.next > 4 {
+		return false
+	}
+	g.add("wstart %d", g.next)
+	g.live = append(g.live, g.next)
+	g.next++
+	return true
+}
+
+// heartbeats of every live worker after the deadline has passed: expired nodes are purged on the way
+func (g *c15rGen) expiry() {
+	g.add("adv %d", g.d+1)
+	for _, k := range g.live {
+		g.add("whb %d", k)
+	}
+}
+
+func (g *c15rGen) round(full bool) {
+	g.add("tick")
+	ks := append([]int(nil), g.live...)
+	if g.r.Bool() {
+		for i := len(ks) - 1; i > 0; i-- {
+			j := g.r.Intn(i + 1)
+			ks[i], ks[j] = ks[j], ks[i]
+		}
+	}
+	n := len(ks)
+	if !full {
+		n = g.r.Intn(len(ks) + 1)
+	}
+	for _, k := range ks[:n] {
+		g.add("rack %d", k)
+	}
+}
+
+func (g *c15rGen) lose() {
+	if len(g.live) == 0 {
+		return
+	}
+	k := lib.Pick(g.r, g.live)
+	g.live = c15Remove(g.live, k)
+	if g.r.Chance(1, 3) {
+		g.add("wstop %d", k)
+	} else {
+		g.add("wkill %d", k)
+	}
+}
+
+func c15GenCluster(r *lib.Rng, tier string) lib.Case {
+	w := lib.Pick(r, []int{1, 2, 2})
+	d := 5
+	g := &c15rGen{r: r, w: w, d: d}
+	for i := 0; i < w; i++ {
+		g.startWorker()
+	}
+	if r.Chance(1, 2) {
+		g.startWorker() // standby
+	}
+	g.add("wdeploy")
+	rounds := r.Range(1, 3)
+	for i := 0; i < rounds; i++ {
+		switch r.Intn(6) {
+		case 0: // loss while idle
+			g.round(true)
+			g.lose()
+		case 1, 2: // loss during an in-flight checkpoint
+			g.round(false)
+			g.lose()
+		case 3: // loss during deployment: the deployment in flight contains a halted node
+			g.lose()
+			g.expiry()
+			for len(g.live) < w && g.startWorker() {
+			}
+			g.lose()
+			g.add("wdeploy")
+		default:
+			g.round(true)
+			continue
+		}
+		if r.Chance(1, 2) {
+			g.add("st")
+		}
+		// recovery: replacements (or the standby), expiry of the lost nodes, as many attempts as it takes
+		for len(g.live) < w && g.startWorker() {
+		}
+		g.add("wdeploy")
+		g.expiry()
+		g.add("wdeploy")
+		g.add("wdeploy")
+		g.round(true)
+	}
+	g.add("st")
+	return lib.Case{Header: c15ClusterHeader(w, d, 0), Ops: g.ops, Tags: []string{"real-workers"}}
+}
+
+func c15ClusterFixed() []lib.Case {
+	return []lib.Case{
+		// kill during an in-flight checkpoint, no standby: worker 1 halts after worker 0's runner acknowledged
+		{Header: c15ClusterHeader(2, 5, 0), Tags: []string{"real-workers"}, Ops: []string{
+			"wstart 0", "wstart 1", "wdeploy", "tick", "rack 0", "st", "wkill 1", "wstart 2", "adv 6", "whb 0", "whb 2", "wdeploy",
+			"st", "tick", "rack 0", "rack 2", "st"}},
+		// standby present: graceful stop of a member, immediate redeploy on the standby, then a kill during that deployment
+		{Header: c15ClusterHeader(1, 5, 0), Tags: []string{"real-workers"}, Ops: []string{
+			"wstart 0", "wstart 1", "wdeploy", "tick", "rack 0", "wstop 0", "wkill 1", "wdeploy", "wdeploy", "wstart 2", "adv 6", "whb 2",
+			"wdeploy", "tick", "rack 2", "st"}},
 	}
 }
